@@ -35,3 +35,5 @@ RES=""
 for p in "$@"; do ./check $p --tier quick > $OUT/check-$p.out 2>&1; rc=$?; tail -3 $OUT/check-$p.out; RES="$RES $p:rc=$rc"; for r in $(grep -o 'replay=[^ ]*' $OUT/check-$p.out | cut -d= -f2); do cp $r $OUT/ 2>/dev/null; done; done
 git -C /repo checkout -- . ; git -C /repo status --short
 echo "checks:$RES" | tee -a $LOG
+# evidence files must describe the unchanged tree: re-run the same checks now that the change is undone
+for p in "$@"; do ./check $p --tier quick | tail -1; done
